@@ -343,11 +343,6 @@ func (c *minecraftConn) BufferPacket(packet proto.Packet) (err error) {
 	return c.bufferPacket(packet, true)
 }
 
-// bufferNoQueue is a helper func to buffer a packet without queuing it.
-func (c *minecraftConn) bufferNoQueue(packet proto.Packet) error {
-	return c.bufferPacket(packet, false)
-}
-
 func (c *minecraftConn) bufferPacket(packet proto.Packet, canQueue bool) (err error) {
 	if Closed(c) {
 		return ErrClosedConn
@@ -524,6 +519,13 @@ func (c *minecraftConn) State() *state.Registry {
 }
 
 func (c *minecraftConn) SetState(s *state.Registry) {
+	c.closeOnWriteErr(c.setState(s), "releasePlayPacketQueue")
+}
+
+// setState is SetState without closing the connection when releasing the play packet
+// queue fails. Closing runs the session teardown and needs sessionHandlerMu, so the
+// caller must pass the returned error to closeOnWriteErr after releasing its locks.
+func (c *minecraftConn) setState(s *state.Registry) (releaseErr error) {
 	c.mu.Lock()
 	prevState := c.state
 	c.state = s
@@ -531,20 +533,22 @@ func (c *minecraftConn) SetState(s *state.Registry) {
 	c.rd.SetState(s)
 	c.wr.SetState(s)
 
-	c.ensurePlayPacketQueue(s.State) // 1.20.2+
+	releaseErr = c.ensurePlayPacketQueue(s.State) // 1.20.2+
 
 	c.mu.Unlock()
 
 	if prevState != s {
 		c.log.V(1).Info("update state", "previous", prevState, "new", s)
 	}
+	return releaseErr
 }
 
 func (c *minecraftConn) SetOutboundState(s *state.Registry) {
 	c.mu.Lock()
 	c.wr.SetState(s)
-	c.ensurePlayPacketQueue(s.State)
+	releaseErr := c.ensurePlayPacketQueue(s.State)
 	c.mu.Unlock()
+	c.closeOnWriteErr(releaseErr, "releasePlayPacketQueue")
 
 	c.log.V(1).Info("update outbound state", "new", s)
 }
@@ -565,19 +569,28 @@ func (c *minecraftConn) activatePlayPacketQueue() {
 
 // ensurePlayPacketQueue ensures the play packet queue is activated or deactivated
 // when the connection enters or leaves the play state. See PlayPacketQueue struct for more info.
-func (c *minecraftConn) ensurePlayPacketQueue(newState states.State) {
+//
+// The calling function holds c.mu (and possibly sessionHandlerMu), therefore a write
+// error is returned instead of closing the connection right here: the caller must
+// close the connection (closeOnWriteErr) after it released its locks.
+func (c *minecraftConn) ensurePlayPacketQueue(newState states.State) (releaseErr error) {
 	if newState == states.ConfigState { // state exists since 1.20.2+
 		c.activatePlayPacketQueue()
-		return
+		return nil
 	}
 
 	// Remove the play packet queue if it exists
 	if c.playPacketQueue != nil {
-		if err := c.playPacketQueue.ReleaseQueue(c.bufferNoQueue, c.Flush); err != nil {
-			c.log.Error(err, "error releasing play packet queue")
+		releaseErr = c.playPacketQueue.ReleaseQueue(func(packet proto.Packet) error {
+			_, err := c.wr.WritePacket(packet)
+			return err
+		}, c.wr.Flush)
+		if releaseErr != nil {
+			c.log.Error(releaseErr, "error releasing play packet queue")
 		}
 		c.playPacketQueue = nil
 	}
+	return releaseErr
 }
 
 func (c *minecraftConn) Type() phase.ConnectionType {
@@ -633,12 +646,15 @@ func (c *minecraftConn) SetActiveSessionHandler(registry *state.Registry, handle
 
 	c.sessionHandlerMu.sessionHandlers[registry] = handler
 	c.sessionHandlerMu.activeSessionHandler = handler
-	c.SetState(registry)
+	releaseErr := c.setState(registry)
 
 	// Note: While a better practice anyway,
 	// we need to call Unlock before handler.Activated()
 	// to prevent deadlock pre-1.20.2 by clientAuthSessionHandler's completeLoginProtocolPhaseAndInitialize
 	c.sessionHandlerMu.Unlock()
+
+	// Closing needs sessionHandlerMu, so only close now if releasing the play packet queue failed.
+	c.closeOnWriteErr(releaseErr, "releasePlayPacketQueue")
 
 	handler.Activated()
 
@@ -651,8 +667,13 @@ func (c *minecraftConn) SwitchSessionHandler(registry *state.Registry) bool {
 		panic("registry must not be nil")
 	}
 
+	var releaseErr error
 	c.sessionHandlerMu.Lock()
-	defer c.sessionHandlerMu.Unlock()
+	defer func() {
+		c.sessionHandlerMu.Unlock()
+		// Closing needs sessionHandlerMu, so only close now if releasing the play packet queue failed.
+		c.closeOnWriteErr(releaseErr, "releasePlayPacketQueue")
+	}()
 
 	handler, ok := c.sessionHandlerMu.sessionHandlers[registry]
 	if !ok {
@@ -660,7 +681,7 @@ func (c *minecraftConn) SwitchSessionHandler(registry *state.Registry) bool {
 	}
 
 	if c.sessionHandlerMu.activeSessionHandler == handler {
-		c.SetState(registry)
+		releaseErr = c.setState(registry)
 
 		// The handler is already active, no need to switch
 		c.log.V(1).WithName("SwitchSessionHandler").Info("session handler already active, no need to switch", "state", registry.String(), "handler", fmt.Sprintf("%T", handler))
@@ -672,7 +693,7 @@ func (c *minecraftConn) SwitchSessionHandler(registry *state.Registry) bool {
 	}
 
 	c.sessionHandlerMu.activeSessionHandler = handler
-	c.SetState(registry)
+	releaseErr = c.setState(registry)
 	handler.Activated()
 
 	c.log.V(1).WithName("SwitchSessionHandler").
